@@ -15,7 +15,7 @@ func init() {
 		id: "C09",
 		li: levelInfo{
 			Level:       "other",
-			Explanation: "Static lifecycle rules. R1: for every component whose Stop/Close blocks on a done latch, the function that closes the latch closes it on every return path. R2: inside the goroutines of listener, session, backend connection, upstream and the two procs every blocking channel operation is guarded (select with a quit latch), a join on a lifecycle latch, or bounded by a timer. R3 (lockset analysis): listener.conns and listener.ln are accessed only under listener.mu, or before the object is shared, or (ln, written once) in code that runs only after the write; the assignment of ln is followed by a re-test of quit/drain that closes the socket. R4: nothing reachable from Drain touches the registry or the quit latch. R5: limit test and insertion are in one critical section and the admission predicate is right over the orderings of len vs limit. R6: Stop closes the listener and every connection of the snapshot taken under the lock, marks the registry stopped in the same critical section, then joins. R7: no lock -> latch wait-for cycle: at every call that joins a lifecycle latch, no lock of the must-hold lockset is acquired anywhere in the code the joined goroutines run before the latch closes (a quit test in front of such an acquisition is not accepted: test-then-lock is not atomic). R4 also requires that Drain closes the drain latch whether or not the port is bound (shared with C17.R6). Wall-clock bounds and goroutine counts are not decided. R8: every quit latch that guards blocking operations has a closer that does not itself wait on it, is called from outside the component and not only on its creation path. The publication of the socket may sit in a helper that performs it on every path: everything dominated by its single call site counts as after the write. R9 (stop order): at every join of a component lifecycle latch, each blocking select of the goroutines the join waits for (the closer's own code and the goroutines it waits for through a WaitGroup) watches a latch that is closed by then - by the stop function before the join, by a component it has already stopped and joined, or by the joined call itself - or a timer; a select that offers a data channel and watches only a latch closed later in the stop sequence is reported. This is a sufficient condition: a design that relies on the data channel making progress instead of a latch is reported too.",
+			Explanation: "Static lifecycle rules. R1: for every component whose Stop/Close blocks on a done latch, the function that closes the latch closes it on every return path. R2: inside the goroutines of listener, session, backend connection, upstream and the two procs every blocking channel operation is guarded (select with a quit latch), a join on a lifecycle latch, or bounded by a timer. R3 (lockset analysis): listener.conns and listener.ln are accessed only under listener.mu, or before the object is shared, or (ln, written once) in code that runs only after the write; the assignment of ln is followed by a re-test of quit/drain that closes the socket. R4: nothing reachable from Drain touches the registry or the quit latch. R5: limit test and insertion are in one critical section and the admission predicate is right over the orderings of len vs limit. R6: Stop closes the listener and every connection of the snapshot taken under the lock, marks the registry stopped in the same critical section, then joins. R7: no lock -> latch wait-for cycle: at every call that joins a lifecycle latch, no lock of the must-hold lockset is acquired anywhere in the code the joined goroutines run before the latch closes (a quit test in front of such an acquisition is not accepted: test-then-lock is not atomic). R4 also requires that Drain closes the drain latch whether or not the port is bound (shared with C17.R6). Wall-clock bounds and goroutine counts are not decided. R8: every quit latch that guards blocking operations has a closer that does not itself wait on it, is called from outside the component and not only on its creation path. The publication of the socket may sit in a helper that performs it on every path: everything dominated by its single call site counts as after the write. R9 (stop order): at every join of a component lifecycle latch, each blocking select of the goroutines the join waits for (the closer's own code and the goroutines it waits for through a WaitGroup) watches a latch that is closed by then - by the stop function before the join, by a component it has already stopped and joined, or by the joined call itself - or a timer; a select that offers a data channel and watches only a latch closed later in the stop sequence is reported. This is a sufficient condition: a design that relies on the data channel making progress instead of a latch is reported too. R10: the terminal sweep of the backend connections ranges over a snapshot read under the table mutex (E-lock), and a single address is deleted from the connection table only by the goroutine that ran that connection.",
 			TrustedBase: []string{"go/ssa", "VTA call graph", "samlint elock.go, echan.go, zone.go"},
 		},
 		run: checkC09,
@@ -252,6 +252,8 @@ func checkC09(c *Ctx) {
 	checkQuitHasExternalCloser(c, "R8")
 	c.Rule("R9", "stop order: at every join of a stop function, each blocking select the joined goroutines can be parked in watches a latch that is closed by then - not one that the stop function closes only after the join")
 	checkJoinBeforeRelease(c, "R9")
+	c.Rule("R10", "connection table discipline: the terminal sweep ranges over a snapshot read under the table mutex; one address is deleted from the table only by the goroutine that ran the connection registered under it")
+	checkClientTableDiscipline(c, "R10")
 }
 
 func checkListener(c *Ctx, ce *chanEngine) {
@@ -1323,4 +1325,143 @@ func hasStopLatch(ce *chanEngine, d *types.Var) bool {
 
 func sameOwner(p *Prog, a, b *types.Var) bool {
 	return ownerOf(p, a) == ownerOf(p, b) && ownerOf(p, a) != ""
+}
+
+// checkClientTableDiscipline (C09.R10): Stop releases every backend connection only if the table of connections is
+// swept completely and nothing falls out of it unseen.
+//  (a) The terminal sweep - the loop that stops the connections before the component's done latch is closed - ranges
+//      over a snapshot of the table that is read while the table's mutex is held: publishers test the quit latch and
+//      publish under that mutex, so a snapshot read outside it can miss a connection that is published a moment later
+//      and that nobody will ever stop.
+//  (b) A single address is deleted from the table only by the goroutine that ran the connection registered under it
+//      (after its run returned). Any other deleter lets a replacement be registered under the address while the old
+//      connection is still winding down; the old goroutine then deletes the replacement, which is in no table any
+//      more - Stop does not stop it and its goroutines survive.
+func checkClientTableDiscipline(c *Ctx, rule string) {
+	p := c.P
+	up := p.Named(redisPkg, "upstream")
+	clientStop := p.Func(redisPkg, "(*client).Stop")
+	start := p.Func(redisPkg, "(*client).Start")
+	doneF := p.Field(redisPkg, "upstream", "done")
+	if up == nil || clientStop == nil || start == nil || doneF == nil {
+		c.Unresolved(rule, "upstream / client.Stop / client.Start / upstream.done")
+		return
+	}
+	// the table: the field of upstream whose loaded value is a map of connections; its mutex: the sync.Mutex field
+	var mu *types.Var
+	if st, ok := up.Underlying().(*types.Struct); ok {
+		for i := 0; i < st.NumFields(); i++ {
+			if ts := types.TypeString(st.Field(i).Type(), nil); (ts == "sync.Mutex" || ts == "sync.RWMutex") && strings.Contains(strings.ToLower(st.Field(i).Name()), "client") {
+				mu = st.Field(i)
+			}
+		}
+	}
+	if mu == nil {
+		c.Unresolved(rule, "mutex of the connection table")
+		return
+	}
+	isTableMap := func(t types.Type) bool {
+		m, ok := t.Underlying().(*types.Map)
+		if !ok {
+			return false
+		}
+		pt, ok := m.Elem().(*types.Pointer)
+		return ok && modType(pt.Elem(), redisPkg, "client")
+	}
+	le := newLockEngine(p, "proc/redis")
+	// (a) terminal sweep
+	var closer *ssa.Function
+	for _, op := range p.chanOpsOnField(doneF) {
+		if op.Kind == opClose {
+			closer = topFn(op.Fn)
+		}
+	}
+	if closer == nil {
+		c.Unresolved(rule, "closer of upstream.done")
+		return
+	}
+	nsweep := 0
+	for _, fn := range append([]*ssa.Function{closer}, staticCalleesDeep(closer, 2)...) {
+		if fn.Blocks == nil || !isModFn(fn) {
+			continue
+		}
+		eachInstr(fn, func(_ *ssa.BasicBlock, _ int, in ssa.Instruction) {
+			if !isCallToFn(in, clientStop) {
+				return
+			}
+			// the connection stopped comes out of a range over a table snapshot
+			var snap ssa.Value
+			derives(callOf(in).Args[0], func(v ssa.Value) bool {
+				if nx, ok := v.(*ssa.Next); ok {
+					if rg, ok := nx.Iter.(*ssa.Range); ok && isTableMap(rg.X.Type()) {
+						snap = rg.X
+					}
+				}
+				return false
+			})
+			if snap == nil {
+				return
+			}
+			nsweep++
+			site := fmt.Sprintf("%s terminal sweep#%d ranges over a snapshot read under the table mutex", fnKey(fn), nsweep)
+			origin, _ := stripConv(resolveCell(snap)).(ssa.Instruction)
+			if origin == nil {
+				c.Undecided(rule, site, in.Pos(), "cannot find where the snapshot is read")
+				return
+			}
+			held := le.heldAt(origin)
+			c.Check(held[mu] >= lockRead, rule, site, origin.Pos(), "the snapshot is read while "+mu.Name()+" is held", "the connections that Stop stops are taken from a snapshot of the table read without "+mu.Name()+": a connection that is being established passes its quit test, and is published under the mutex right after the snapshot - it is in no snapshot, nobody stops it, its goroutines and its socket outlive Stop and the request that triggered it is never answered")
+		})
+	}
+	if nsweep == 0 {
+		c.Fail(rule, "terminal sweep", closer.Pos(), "the function that ends the upstream does not stop the connections of the table before closing its done latch")
+	}
+	// (b) single-address deleters
+	var deleters []*ssa.Function
+	for _, fn := range p.FuncsIn(redisPkg) {
+		if p.isTestFn(fn) {
+			continue
+		}
+		eachInstr(fn, func(_ *ssa.BasicBlock, _ int, in ssa.Instruction) {
+			if call, ok := in.(*ssa.Call); ok && isBuiltin(call, "delete") && isTableMap(call.Call.Args[0].Type()) {
+				deleters = append(deleters, fn)
+			}
+		})
+	}
+	nd := 0
+	seen := map[*ssa.Function]bool{}
+	var visit func(fn *ssa.Function, depth int)
+	visit = func(fn *ssa.Function, depth int) {
+		if seen[fn] || depth > 3 {
+			return
+		}
+		seen[fn] = true
+		for _, ed := range p.callersOf(fn) {
+			cf := ed.Caller.Func
+			if p.isTestFn(cf) {
+				continue
+			}
+			// a helper that only forwards (removeClient -> removeClientLocked): look at its callers
+			if cf.Signature.Recv() != nil && types.Identical(cf.Signature.Recv().Type(), fn.Signature.Recv().Type()) && strings.HasPrefix(fn.Name(), cf.Name()) {
+				visit(cf, depth+1)
+				continue
+			}
+			nd++
+			site := fmt.Sprintf("%s deletes one address from the connection table", fnKey(cf))
+			// the goroutine that ran the connection: the call is dominated by a call of the connection's run function
+			own := false
+			eachInstr(cf, func(_ *ssa.BasicBlock, _ int, x ssa.Instruction) {
+				if isCallToFn(x, start) && instrDominates(x, ed.Site) {
+					own = true
+				}
+			})
+			c.Check(own, rule, site, ed.Site.Pos(), "only the goroutine that ran the connection, after its run returned", "an address is deleted from the connection table by code other than the goroutine that ran the connection registered under it: a replacement can then be registered under the address while the old connection is still winding down, the old goroutine deletes the replacement when it ends, and the replacement - in no table - is never stopped by Stop")
+		}
+	}
+	for _, d := range deleters {
+		visit(d, 0)
+	}
+	if nd == 0 {
+		c.Unresolved(rule, "no deleter of a single address of the connection table")
+	}
 }
